@@ -98,6 +98,7 @@ Proof. reflexivity. Qed.
 Ltac leaf :=
   unfold inb, away; cbn [fst snd length];
   rewrite ?ustar_fn_strict_length, ?ustar_format_octal_length, ?firstn_length;
+  cbn [length];
   unfold USTAR_name_offset, USTAR_name_size, USTAR_mode_offset, USTAR_mode_size, USTAR_uid_offset, USTAR_uid_size,
     USTAR_gid_offset, USTAR_gid_size, USTAR_size_offset, USTAR_size_size, USTAR_mtime_offset, USTAR_mtime_size,
     USTAR_checksum_offset, USTAR_checksum_size, USTAR_typeflag_offset, USTAR_linkname_offset, USTAR_linkname_size,
@@ -220,12 +221,44 @@ Ltac name_away :=
 
 Ltac away_all := split_forall; try leaf; try name_away.
 
-Ltac fields_eq := unfold ustar_fields; cbv zeta; cbn [snd]; repeat rewrite <- app_assoc; cbn [app]; reflexivity.
-
 Lemma stops_sp_nul : stops 8 [32; 0]%Z.
 Proof. cbn. lia. Qed.
 Lemma stops_sp : stops 8 [32]%Z.
 Proof. cbn. lia. Qed.
+
+(* the write list of the strict ustar header, in named pieces *)
+Definition u_strs (e : entry) : list wr :=
+  snd (ustar_name_writes (ob (e_path e)))
+  ++ wr_if (0 <? length (linkname_of e)) USTAR_linkname_offset (firstn USTAR_linkname_size (linkname_of e))
+  ++ wr_if (0 <? length (ob (e_uname e))) USTAR_uname_offset (firstn USTAR_uname_size (ob (e_uname e)))
+  ++ wr_if (0 <? length (ob (e_gname e))) USTAR_gname_offset (firstn USTAR_gname_size (ob (e_gname e))).
+Definition u_mode (e : entry) : wr :=
+  (USTAR_mode_offset, snd (ustar_format_number (Z.land (e_mode e) 4095) USTAR_mode_size USTAR_mode_max_size true)).
+Definition u_uid (e : entry) : wr :=
+  (USTAR_uid_offset, snd (ustar_format_number (e_uid e) USTAR_uid_size USTAR_uid_max_size true)).
+Definition u_gid (e : entry) : wr :=
+  (USTAR_gid_offset, snd (ustar_format_number (e_gid e) USTAR_gid_size USTAR_gid_max_size true)).
+Definition u_size (e : entry) : wr :=
+  (USTAR_size_offset, snd (ustar_format_number (size_of e) USTAR_size_size USTAR_size_max_size true)).
+Definition u_mtime (e : entry) : wr :=
+  (USTAR_mtime_offset, snd (ustar_format_number (e_mtime e) USTAR_mtime_size USTAR_mtime_max_size true)).
+Definition u_maj (e : entry) : list Z :=
+  snd (ustar_format_number (dev_major (e_rdev e)) USTAR_rdevmajor_size USTAR_rdevmajor_max_size true).
+Definition u_min (e : entry) : list Z :=
+  snd (ustar_format_number (dev_minor (e_rdev e)) USTAR_rdevminor_size USTAR_rdevminor_max_size true).
+Definition u_tf (e : entry) (tt : Z) : list wr :=
+  match ustar_typeflag e tt with Some t => [(USTAR_typeflag_offset, [t])] | None => [] end.
+Definition u_tail (e : entry) (tt : Z) : list wr :=
+  wr_if (is_dev e) USTAR_rdevmajor_offset (u_maj e) ++ wr_if (is_dev e) USTAR_rdevminor_offset (u_min e) ++ u_tf e tt.
+
+Lemma ustar_fields_shape : forall e tt,
+  snd (ustar_fields e tt true) = u_strs e ++ [u_mode e; u_uid e; u_gid e; u_size e; u_mtime e] ++ u_tail e tt.
+Proof.
+  intros. unfold ustar_fields, u_strs, u_tail, u_tf, u_maj, u_min, u_mode, u_uid, u_gid, u_size, u_mtime.
+  cbv zeta. cbn [snd]. repeat rewrite <- app_assoc. reflexivity.
+Qed.
+
+Ltac unfold_u := unfold u_strs, u_tail, u_tf, u_maj, u_min, u_mode, u_uid, u_gid, u_size, u_mtime in *.
 
 (* a 6-digit field read through the reader's 8-byte window, an 11-digit one through 12 bytes *)
 Lemma ustar_num6 : forall e tt o v ws1 ws2,
@@ -260,6 +293,8 @@ Proof.
   apply ustar_strict_exact; [lia | apply stops_sp | assumption].
 Qed.
 
+Ltac all_away e tt := rewrite (ustar_fields_shape e tt); unfold_u; away_all.
+
 Section UstarOk.
 Variable e : entry.
 Variable tt : Z.
@@ -269,10 +304,11 @@ Let facts : ustar_ok_facts e tt := ustar_ok e tt Hok.
 
 Theorem ustar_ok_mode : tar_atol (slice R_tar_mode_offset R_tar_mode_size (snd (ustar_header e tt true))) = Z.land (e_mode e) 4095.
 Proof.
-  eapply (ustar_num6 e tt USTAR_mode_offset).
-  - fields_eq.
-  - away_all.
-  - unfold ustar_fields; cbv zeta; cbn [snd]; away_all.
+  apply (ustar_num6 e tt USTAR_mode_offset (Z.land (e_mode e) 4095) (u_strs e)
+           ([u_uid e; u_gid e; u_size e; u_mtime e] ++ u_tail e tt)).
+  - rewrite ustar_fields_shape. reflexivity.
+  - unfold_u. away_all.
+  - all_away e tt.
   - leaf.
   - reflexivity.
   - apply (uf_mode _ _ facts).
@@ -280,10 +316,11 @@ Qed.
 
 Theorem ustar_ok_uid : tar_atol (slice R_tar_uid_offset R_tar_uid_size (snd (ustar_header e tt true))) = e_uid e.
 Proof.
-  eapply (ustar_num6 e tt USTAR_uid_offset).
-  - fields_eq.
-  - away_all.
-  - unfold ustar_fields; cbv zeta; cbn [snd]; away_all.
+  apply (ustar_num6 e tt USTAR_uid_offset (e_uid e) (u_strs e ++ [u_mode e])
+           ([u_gid e; u_size e; u_mtime e] ++ u_tail e tt)).
+  - rewrite ustar_fields_shape. rewrite <- app_assoc. reflexivity.
+  - unfold_u. away_all.
+  - all_away e tt.
   - leaf.
   - reflexivity.
   - apply (uf_uid _ _ facts).
@@ -291,10 +328,11 @@ Qed.
 
 Theorem ustar_ok_gid : tar_atol (slice R_tar_gid_offset R_tar_gid_size (snd (ustar_header e tt true))) = e_gid e.
 Proof.
-  eapply (ustar_num6 e tt USTAR_gid_offset).
-  - fields_eq.
-  - away_all.
-  - unfold ustar_fields; cbv zeta; cbn [snd]; away_all.
+  apply (ustar_num6 e tt USTAR_gid_offset (e_gid e) (u_strs e ++ [u_mode e; u_uid e])
+           ([u_size e; u_mtime e] ++ u_tail e tt)).
+  - rewrite ustar_fields_shape. rewrite <- app_assoc. reflexivity.
+  - unfold_u. away_all.
+  - all_away e tt.
   - leaf.
   - reflexivity.
   - apply (uf_gid _ _ facts).
@@ -302,10 +340,11 @@ Qed.
 
 Theorem ustar_ok_size : tar_atol (slice R_tar_size_offset R_tar_size_size (snd (ustar_header e tt true))) = size_of e.
 Proof.
-  eapply (ustar_num11 e tt USTAR_size_offset).
-  - fields_eq.
-  - away_all.
-  - unfold ustar_fields; cbv zeta; cbn [snd]; away_all.
+  apply (ustar_num11 e tt USTAR_size_offset (size_of e) USTAR_size_max_size (u_strs e ++ [u_mode e; u_uid e; u_gid e])
+           ([u_mtime e] ++ u_tail e tt)).
+  - rewrite ustar_fields_shape. rewrite <- app_assoc. reflexivity.
+  - unfold_u. away_all.
+  - all_away e tt.
   - leaf.
   - reflexivity.
   - apply (uf_size _ _ facts).
@@ -313,10 +352,11 @@ Qed.
 
 Theorem ustar_ok_mtime : tar_atol (slice R_tar_mtime_offset R_tar_mtime_size (snd (ustar_header e tt true))) = e_mtime e.
 Proof.
-  eapply (ustar_num11 e tt USTAR_mtime_offset).
-  - fields_eq.
-  - away_all.
-  - unfold ustar_fields; cbv zeta; cbn [snd]; away_all.
+  apply (ustar_num11 e tt USTAR_mtime_offset (e_mtime e) USTAR_mtime_max_size
+           (u_strs e ++ [u_mode e; u_uid e; u_gid e; u_size e]) (u_tail e tt)).
+  - rewrite ustar_fields_shape. rewrite <- app_assoc. reflexivity.
+  - unfold_u. away_all.
+  - all_away e tt.
   - leaf.
   - reflexivity.
   - apply (uf_mtime _ _ facts).
@@ -335,20 +375,12 @@ Let facts : ustar_ok_facts e tt := ustar_ok e tt Hok.
 Theorem ustar_ok_rdevmajor :
   tar_atol (slice R_tar_rdevmajor_offset R_tar_rdevmajor_size (snd (ustar_header e tt true))) = dev_major (e_rdev e).
 Proof.
-  eapply (ustar_num6 e tt USTAR_rdevmajor_offset) with
-    (ws1 := snd (ustar_name_writes (ob (e_path e)))
-       ++ wr_if (0 <? length (linkname_of e)) USTAR_linkname_offset (firstn USTAR_linkname_size (linkname_of e))
-       ++ wr_if (0 <? length (ob (e_uname e))) USTAR_uname_offset (firstn USTAR_uname_size (ob (e_uname e)))
-       ++ wr_if (0 <? length (ob (e_gname e))) USTAR_gname_offset (firstn USTAR_gname_size (ob (e_gname e)))
-       ++ [(USTAR_mode_offset, snd (ustar_format_number (Z.land (e_mode e) 4095) USTAR_mode_size USTAR_mode_max_size true));
-           (USTAR_uid_offset, snd (ustar_format_number (e_uid e) USTAR_uid_size USTAR_uid_max_size true));
-           (USTAR_gid_offset, snd (ustar_format_number (e_gid e) USTAR_gid_size USTAR_gid_max_size true));
-           (USTAR_size_offset, snd (ustar_format_number (size_of e) USTAR_size_size USTAR_size_max_size true));
-           (USTAR_mtime_offset, snd (ustar_format_number (e_mtime e) USTAR_mtime_size USTAR_mtime_max_size true))]).
-  - unfold ustar_fields; cbv zeta; cbn [snd]. rewrite Hdev. cbn [wr_if].
-    repeat rewrite <- app_assoc. cbn [app]. reflexivity.
-  - away_all.
-  - unfold ustar_fields; cbv zeta; cbn [snd]; away_all.
+  apply (ustar_num6 e tt USTAR_rdevmajor_offset (dev_major (e_rdev e))
+           (u_strs e ++ [u_mode e; u_uid e; u_gid e; u_size e; u_mtime e])
+           ([(USTAR_rdevminor_offset, u_min e)] ++ u_tf e tt)).
+  - rewrite ustar_fields_shape. unfold u_tail. rewrite Hdev. cbn [wr_if]. rewrite <- app_assoc. reflexivity.
+  - unfold_u. away_all.
+  - all_away e tt.
   - leaf.
   - reflexivity.
   - apply (uf_maj _ _ facts Hdev).
@@ -357,21 +389,12 @@ Qed.
 Theorem ustar_ok_rdevminor :
   tar_atol (slice R_tar_rdevminor_offset R_tar_rdevminor_size (snd (ustar_header e tt true))) = dev_minor (e_rdev e).
 Proof.
-  eapply (ustar_num6 e tt USTAR_rdevminor_offset) with
-    (ws1 := snd (ustar_name_writes (ob (e_path e)))
-       ++ wr_if (0 <? length (linkname_of e)) USTAR_linkname_offset (firstn USTAR_linkname_size (linkname_of e))
-       ++ wr_if (0 <? length (ob (e_uname e))) USTAR_uname_offset (firstn USTAR_uname_size (ob (e_uname e)))
-       ++ wr_if (0 <? length (ob (e_gname e))) USTAR_gname_offset (firstn USTAR_gname_size (ob (e_gname e)))
-       ++ [(USTAR_mode_offset, snd (ustar_format_number (Z.land (e_mode e) 4095) USTAR_mode_size USTAR_mode_max_size true));
-           (USTAR_uid_offset, snd (ustar_format_number (e_uid e) USTAR_uid_size USTAR_uid_max_size true));
-           (USTAR_gid_offset, snd (ustar_format_number (e_gid e) USTAR_gid_size USTAR_gid_max_size true));
-           (USTAR_size_offset, snd (ustar_format_number (size_of e) USTAR_size_size USTAR_size_max_size true));
-           (USTAR_mtime_offset, snd (ustar_format_number (e_mtime e) USTAR_mtime_size USTAR_mtime_max_size true));
-           (USTAR_rdevmajor_offset, snd (ustar_format_number (dev_major (e_rdev e)) USTAR_rdevmajor_size USTAR_rdevmajor_max_size true))]).
-  - unfold ustar_fields; cbv zeta; cbn [snd]. rewrite Hdev. cbn [wr_if].
-    repeat rewrite <- app_assoc. cbn [app]. reflexivity.
-  - away_all.
-  - unfold ustar_fields; cbv zeta; cbn [snd]; away_all.
+  apply (ustar_num6 e tt USTAR_rdevminor_offset (dev_minor (e_rdev e))
+           (u_strs e ++ [u_mode e; u_uid e; u_gid e; u_size e; u_mtime e; (USTAR_rdevmajor_offset, u_maj e)])
+           (u_tf e tt)).
+  - rewrite ustar_fields_shape. unfold u_tail. rewrite Hdev. cbn [wr_if]. rewrite <- app_assoc. reflexivity.
+  - unfold_u. away_all.
+  - all_away e tt.
   - leaf.
   - reflexivity.
   - apply (uf_min _ _ facts Hdev).
@@ -421,9 +444,15 @@ Lemma gname_region_zero : slice USTAR_gname_offset USTAR_gname_size ustar_templa
 Proof. reflexivity. Qed.
 
 Lemma no_nul_firstn : forall n l, no_nul l -> no_nul (firstn n l).
-Proof. intros. unfold no_nul in *. apply Forall_firstn. assumption. Qed.
+Proof.
+  unfold no_nul. induction n; intros l H; cbn [firstn]; [constructor|].
+  destruct l; [constructor|]. inversion H; subst. constructor; [assumption | apply IHn; assumption].
+Qed.
 Lemma no_nul_skipn : forall n l, no_nul l -> no_nul (skipn n l).
-Proof. intros. unfold no_nul in *. apply Forall_skipn. assumption. Qed.
+Proof.
+  unfold no_nul. induction n; intros l H; cbn [skipn]; [assumption|].
+  destruct l; [constructor|]. inversion H; subst. apply IHn; assumption.
+Qed.
 
 Lemma firstn_skipn_middle : forall i (l : list Z), i < length l ->
   firstn i l ++ [nth i l 0%Z] ++ skipn (S i) l = l.
@@ -507,12 +536,15 @@ Proof.
     assert (Hnpre : no_nul pre) by (apply no_nul_firstn; assumption).
     assert (Hnnm : no_nul nm) by (apply no_nul_skipn; assumption).
     destruct pre as [|c pre'] eqn:Epre; [cbn [length] in Lpre; lia|].
-    cbn [app ustar_join]. inversion Hnpre; subst.
+    cbn [app ustar_join].
+    assert (Hc0 : c <> 0%Z) by (inversion Hnpre; assumption).
     destruct (c =? 0)%Z eqn:Ec; [apply Z.eqb_eq in Ec; contradiction|].
     change (c :: pre' ++ zeros (USTAR_prefix_size - length (c :: pre'))) with ((c :: pre') ++ zeros (USTAR_prefix_size - length (c :: pre'))).
     rewrite cstr_app_zeros by assumption. rewrite cstr_app_zeros by assumption.
-    rewrite <- Epre. unfold pre at 1. rewrite last_byte_firstn by lia.
-    specialize (Hds i Hsp). destruct (nth (i - 1) pp 0 =? slash)%Z eqn:El; [apply Z.eqb_eq in El; contradiction|].
+    rewrite <- Epre.
+    assert (Hl : last_byte pre = nth (i - 1) pp 0%Z) by (unfold pre; apply last_byte_firstn; lia).
+    rewrite Hl. specialize (Hds i Hsp).
+    destruct (nth (i - 1) pp 0 =? slash)%Z eqn:El; [apply Z.eqb_eq in El; contradiction|].
     rewrite <- S4. rewrite <- app_assoc. unfold pre, nm. apply firstn_skipn_middle. assumption.
 Qed.
 
@@ -530,35 +562,45 @@ Variable tt : Z.
 Hypothesis Hok : fst (ustar_header e tt true) = 0%Z.
 Let facts : ustar_ok_facts e tt := ustar_ok e tt Hok.
 
+Definition u_nums (e : entry) : list wr := [u_mode e; u_uid e; u_gid e; u_size e; u_mtime e].
+Definition w_link (e : entry) := wr_if (0 <? length (linkname_of e)) USTAR_linkname_offset (firstn USTAR_linkname_size (linkname_of e)).
+Definition w_un (e : entry) := wr_if (0 <? length (ob (e_uname e))) USTAR_uname_offset (firstn USTAR_uname_size (ob (e_uname e))).
+Definition w_gn (e : entry) := wr_if (0 <? length (ob (e_gname e))) USTAR_gname_offset (firstn USTAR_gname_size (ob (e_gname e))).
+
+Lemma ustar_fields_shape2 :
+  snd (ustar_fields e tt true) = snd (ustar_name_writes (ob (e_path e))) ++ w_link e ++ w_un e ++ w_gn e ++ u_nums e ++ u_tail e tt.
+Proof.
+  rewrite ustar_fields_shape. unfold u_strs, w_link, w_un, w_gn, u_nums. repeat rewrite <- app_assoc. reflexivity.
+Qed.
+
+Ltac unfold_w := unfold w_link, w_un, w_gn, u_nums in *; unfold_u.
+
+Lemma wr_if_nonempty : forall (s : list Z) o n, s <> [] -> length s <= n ->
+  wr_if (0 <? length s) o (firstn n s) = [(o, s)].
+Proof.
+  intros s o n Hs Hl. destruct s; [contradiction|]. cbn [length Nat.ltb Nat.leb wr_if].
+  rewrite firstn_all_le by assumption. reflexivity.
+Qed.
+
 Theorem ustar_ok_linkname :
   no_nul (linkname_of e) ->
   cstr (slice R_tar_linkname_offset R_tar_linkname_size (snd (ustar_header e tt true))) = linkname_of e.
 Proof.
   intros Hnn. pose proof (uf_link _ _ facts) as Hlen.
   change R_tar_linkname_offset with USTAR_linkname_offset. change R_tar_linkname_size with USTAR_linkname_size.
-  destruct (linkname_of e) as [|c t] eqn:El.
+  set (s := linkname_of e) in *.
+  destruct s as [|c t] eqn:El.
   - rewrite ustar_untouched; [rewrite linkname_region_zero; apply cstr_zeros | | leaf].
-    unfold ustar_fields; cbv zeta; cbn [snd]. rewrite El. away_all.
+    rewrite ustar_fields_shape2. unfold_w. fold s. rewrite El. away_all.
   - rewrite <- El in *.
-    replace USTAR_linkname_size with (length (linkname_of e) + (USTAR_linkname_size - length (linkname_of e))) at 1 by lia.
-    rewrite (ustar_field_padded e tt USTAR_linkname_offset (linkname_of e) (USTAR_linkname_size - length (linkname_of e))
-               (snd (ustar_name_writes (ob (e_path e))))
-               (wr_if (0 <? length (ob (e_uname e))) USTAR_uname_offset (firstn USTAR_uname_size (ob (e_uname e)))
-                ++ skipn 0 (wr_if (0 <? length (ob (e_gname e))) USTAR_gname_offset (firstn USTAR_gname_size (ob (e_gname e)))
-                ++ [(USTAR_mode_offset, snd (ustar_format_number (Z.land (e_mode e) 4095) USTAR_mode_size USTAR_mode_max_size true));
-                    (USTAR_uid_offset, snd (ustar_format_number (e_uid e) USTAR_uid_size USTAR_uid_max_size true));
-                    (USTAR_gid_offset, snd (ustar_format_number (e_gid e) USTAR_gid_size USTAR_gid_max_size true));
-                    (USTAR_size_offset, snd (ustar_format_number (size_of e) USTAR_size_size USTAR_size_max_size true));
-                    (USTAR_mtime_offset, snd (ustar_format_number (e_mtime e) USTAR_mtime_size USTAR_mtime_max_size true))]
-                ++ wr_if (is_dev e) USTAR_rdevmajor_offset (snd (ustar_format_number (dev_major (e_rdev e)) USTAR_rdevmajor_size USTAR_rdevmajor_max_size true))
-                ++ wr_if (is_dev e) USTAR_rdevminor_offset (snd (ustar_format_number (dev_minor (e_rdev e)) USTAR_rdevminor_size USTAR_rdevminor_max_size true))
-                ++ match ustar_typeflag e tt with Some t0 => [(USTAR_typeflag_offset, [t0])] | None => [] end))).
+    replace USTAR_linkname_size with (length s + (USTAR_linkname_size - length s)) at 1 by lia.
+    rewrite (ustar_field_padded e tt USTAR_linkname_offset s (USTAR_linkname_size - length s)
+               (snd (ustar_name_writes (ob (e_path e)))) (w_un e ++ w_gn e ++ u_nums e ++ u_tail e tt)).
     + rewrite (slice_of_zero_region _ _ _ _ _ linkname_region_zero) by (unfold USTAR_linkname_offset; lia).
       apply cstr_app_zeros. assumption.
-    + unfold ustar_fields; cbv zeta; cbn [snd skipn]. rewrite El. cbn [length Nat.ltb Nat.leb wr_if].
-      rewrite <- El. rewrite firstn_all_le by assumption. reflexivity.
-    + cbn [skipn]. away_all.
-    + unfold ustar_fields; cbv zeta; cbn [snd]. away_all.
+    + rewrite ustar_fields_shape2. unfold w_link. fold s. rewrite wr_if_nonempty; [reflexivity | rewrite El; discriminate | assumption].
+    + unfold_w. away_all.
+    + rewrite ustar_fields_shape2. unfold_w. fold s. away_all.
     + leaf.
 Qed.
 
@@ -568,29 +610,20 @@ Theorem ustar_ok_uname : tt <> 120%Z ->
 Proof.
   intros Htt Hnn. pose proof (uf_uname _ _ facts Htt) as Hlen.
   change R_tar_uname_offset with USTAR_uname_offset. change R_tar_uname_size with USTAR_uname_size.
-  destruct (ob (e_uname e)) as [|c t] eqn:El.
+  set (s := ob (e_uname e)) in *.
+  destruct s as [|c t] eqn:El.
   - rewrite ustar_untouched; [rewrite uname_region_zero; apply cstr_zeros | | leaf].
-    unfold ustar_fields; cbv zeta; cbn [snd]. rewrite El. away_all.
+    rewrite ustar_fields_shape2. unfold_w. fold s. rewrite El. away_all.
   - rewrite <- El in *.
-    replace USTAR_uname_size with (length (ob (e_uname e)) + (USTAR_uname_size - length (ob (e_uname e)))) at 1 by lia.
-    rewrite (ustar_field_padded e tt USTAR_uname_offset (ob (e_uname e)) (USTAR_uname_size - length (ob (e_uname e)))
-               (snd (ustar_name_writes (ob (e_path e)))
-                ++ wr_if (0 <? length (linkname_of e)) USTAR_linkname_offset (firstn USTAR_linkname_size (linkname_of e)))
-               (wr_if (0 <? length (ob (e_gname e))) USTAR_gname_offset (firstn USTAR_gname_size (ob (e_gname e)))
-                ++ [(USTAR_mode_offset, snd (ustar_format_number (Z.land (e_mode e) 4095) USTAR_mode_size USTAR_mode_max_size true));
-                    (USTAR_uid_offset, snd (ustar_format_number (e_uid e) USTAR_uid_size USTAR_uid_max_size true));
-                    (USTAR_gid_offset, snd (ustar_format_number (e_gid e) USTAR_gid_size USTAR_gid_max_size true));
-                    (USTAR_size_offset, snd (ustar_format_number (size_of e) USTAR_size_size USTAR_size_max_size true));
-                    (USTAR_mtime_offset, snd (ustar_format_number (e_mtime e) USTAR_mtime_size USTAR_mtime_max_size true))]
-                ++ wr_if (is_dev e) USTAR_rdevmajor_offset (snd (ustar_format_number (dev_major (e_rdev e)) USTAR_rdevmajor_size USTAR_rdevmajor_max_size true))
-                ++ wr_if (is_dev e) USTAR_rdevminor_offset (snd (ustar_format_number (dev_minor (e_rdev e)) USTAR_rdevminor_size USTAR_rdevminor_max_size true))
-                ++ match ustar_typeflag e tt with Some t0 => [(USTAR_typeflag_offset, [t0])] | None => [] end)).
+    replace USTAR_uname_size with (length s + (USTAR_uname_size - length s)) at 1 by lia.
+    rewrite (ustar_field_padded e tt USTAR_uname_offset s (USTAR_uname_size - length s)
+               (snd (ustar_name_writes (ob (e_path e))) ++ w_link e) (w_gn e ++ u_nums e ++ u_tail e tt)).
     + rewrite (slice_of_zero_region _ _ _ _ _ uname_region_zero) by (unfold USTAR_uname_offset; lia).
       apply cstr_app_zeros. assumption.
-    + unfold ustar_fields; cbv zeta; cbn [snd]. rewrite El. cbn [length Nat.ltb Nat.leb wr_if].
-      rewrite <- El. rewrite firstn_all_le by assumption. repeat rewrite <- app_assoc. reflexivity.
-    + away_all.
-    + unfold ustar_fields; cbv zeta; cbn [snd]. away_all.
+    + rewrite ustar_fields_shape2. unfold w_un. fold s. rewrite wr_if_nonempty; [| rewrite El; discriminate | assumption].
+      rewrite <- app_assoc. reflexivity.
+    + unfold_w. away_all.
+    + rewrite ustar_fields_shape2. unfold_w. fold s. away_all.
     + leaf.
 Qed.
 
@@ -600,29 +633,20 @@ Theorem ustar_ok_gname : tt <> 120%Z ->
 Proof.
   intros Htt Hnn. pose proof (uf_gname _ _ facts Htt) as Hlen.
   change R_tar_gname_offset with USTAR_gname_offset. change R_tar_gname_size with USTAR_gname_size.
-  destruct (ob (e_gname e)) as [|c t] eqn:El.
+  set (s := ob (e_gname e)) in *.
+  destruct s as [|c t] eqn:El.
   - rewrite ustar_untouched; [rewrite gname_region_zero; apply cstr_zeros | | leaf].
-    unfold ustar_fields; cbv zeta; cbn [snd]. rewrite El. away_all.
+    rewrite ustar_fields_shape2. unfold_w. fold s. rewrite El. away_all.
   - rewrite <- El in *.
-    replace USTAR_gname_size with (length (ob (e_gname e)) + (USTAR_gname_size - length (ob (e_gname e)))) at 1 by lia.
-    rewrite (ustar_field_padded e tt USTAR_gname_offset (ob (e_gname e)) (USTAR_gname_size - length (ob (e_gname e)))
-               (snd (ustar_name_writes (ob (e_path e)))
-                ++ wr_if (0 <? length (linkname_of e)) USTAR_linkname_offset (firstn USTAR_linkname_size (linkname_of e))
-                ++ wr_if (0 <? length (ob (e_uname e))) USTAR_uname_offset (firstn USTAR_uname_size (ob (e_uname e))))
-               ([(USTAR_mode_offset, snd (ustar_format_number (Z.land (e_mode e) 4095) USTAR_mode_size USTAR_mode_max_size true));
-                    (USTAR_uid_offset, snd (ustar_format_number (e_uid e) USTAR_uid_size USTAR_uid_max_size true));
-                    (USTAR_gid_offset, snd (ustar_format_number (e_gid e) USTAR_gid_size USTAR_gid_max_size true));
-                    (USTAR_size_offset, snd (ustar_format_number (size_of e) USTAR_size_size USTAR_size_max_size true));
-                    (USTAR_mtime_offset, snd (ustar_format_number (e_mtime e) USTAR_mtime_size USTAR_mtime_max_size true))]
-                ++ wr_if (is_dev e) USTAR_rdevmajor_offset (snd (ustar_format_number (dev_major (e_rdev e)) USTAR_rdevmajor_size USTAR_rdevmajor_max_size true))
-                ++ wr_if (is_dev e) USTAR_rdevminor_offset (snd (ustar_format_number (dev_minor (e_rdev e)) USTAR_rdevminor_size USTAR_rdevminor_max_size true))
-                ++ match ustar_typeflag e tt with Some t0 => [(USTAR_typeflag_offset, [t0])] | None => [] end)).
+    replace USTAR_gname_size with (length s + (USTAR_gname_size - length s)) at 1 by lia.
+    rewrite (ustar_field_padded e tt USTAR_gname_offset s (USTAR_gname_size - length s)
+               (snd (ustar_name_writes (ob (e_path e))) ++ w_link e ++ w_un e) (u_nums e ++ u_tail e tt)).
     + rewrite (slice_of_zero_region _ _ _ _ _ gname_region_zero) by (unfold USTAR_gname_offset; lia).
       apply cstr_app_zeros. assumption.
-    + unfold ustar_fields; cbv zeta; cbn [snd]. rewrite El. cbn [length Nat.ltb Nat.leb wr_if].
-      rewrite <- El. rewrite firstn_all_le by assumption. repeat rewrite <- app_assoc. reflexivity.
-    + away_all.
-    + unfold ustar_fields; cbv zeta; cbn [snd]. away_all.
+    + rewrite ustar_fields_shape2. unfold w_gn. fold s. rewrite wr_if_nonempty; [| rewrite El; discriminate | assumption].
+      repeat rewrite <- app_assoc. reflexivity.
+    + unfold_w. away_all.
+    + rewrite ustar_fields_shape2. unfold_w. fold s. away_all.
     + leaf.
 Qed.
 
@@ -682,17 +706,19 @@ Ltac leaf7 :=
     V7TAR_checksum_offset, V7TAR_checksum_size, V7TAR_typeflag_offset, V7TAR_linkname_offset, V7TAR_linkname_size in *;
   lia.
 
+Ltac v7_forall := unfold v7tar_fields; cbv zeta; cbn [snd];
+  repeat match goal with
+  | |- Forall _ (_ ++ _) => apply Forall_app; split
+  | |- Forall _ (wr_if _ _ _) => apply Forall_wr_if; let H := fresh in intros H; try apply Nat.ltb_lt in H
+  | |- Forall _ (_ :: _) => constructor
+  | |- Forall _ [] => constructor
+  | |- Forall _ (match (if ?c then _ else _) with _ => _ end) => destruct c
+  | |- Forall _ (match Some _ with _ => _ end) => cbv iota
+  | |- Forall _ (match None with _ => _ end) => cbv iota
+  end; try leaf7.
+
 Lemma v7tar_fields_inb : forall e, Forall (inb 512) (snd (v7tar_fields e true)).
-Proof.
-  intros. unfold v7tar_fields. cbv zeta. cbn [snd].
-  apply Forall_app; split.
-  - apply Forall_wr_if. intros H. apply Nat.ltb_lt in H. leaf7.
-  - apply Forall_app; split; [apply Forall_wr_if; intros _; leaf7|].
-    apply Forall_app; split; [repeat constructor; leaf7|].
-    destruct (0 <=? mytartype_of e)%Z; [repeat constructor; leaf7|].
-    destruct ((filetype e =? IFREG)%Z || (filetype e =? IFDIR)%Z); [constructor|].
-    destruct (filetype e =? IFLNK)%Z; [repeat constructor; leaf7 | constructor].
-Qed.
+Proof. intros. v7_forall. Qed.
 
 Lemma ck_ok_v7 : ck_ok V7TAR_checksum_offset tar_checksum_v7.
 Proof.
@@ -729,19 +755,12 @@ Proof.
   | pick _ ST_FAILED _ = 0%Z => apply (pick_zero _ _ _ ST_FAILED_nz) in H; let C := fresh "C" in destruct H as [C H]
   end.
   constructor; try (apply negb_eqb0; assumption).
-  - apply negb_false_iff in C5. apply Nat.ltb_lt. assumption.
-  - apply Nat.leb_gt. assumption.
+  - match goal with Hc : negb (_ <? V7TAR_name_size) = false |- _ =>
+      apply negb_false_iff in Hc; apply Nat.ltb_lt; assumption end.
+  - match goal with Hc : (V7TAR_linkname_size <=? _) = false |- _ => apply Nat.leb_gt; assumption end.
 Qed.
 
-Ltac v7_away := unfold v7tar_fields; cbv zeta; cbn [snd];
-  repeat match goal with
-  | |- Forall _ (_ ++ _) => apply Forall_app; split
-  | |- Forall _ (wr_if _ _ _) => apply Forall_wr_if; let H := fresh in intros H; try apply Nat.ltb_lt in H
-  | |- Forall _ (_ :: _) => constructor
-  | |- Forall _ [] => constructor
-  | |- Forall _ (match ?x with _ => _ end) => destruct x
-  | |- Forall _ (if ?x then _ else _) => destruct x
-  end; try leaf7.
+Ltac v7_away := v7_forall.
 
 Section V7Ok.
 Variable e : entry.
@@ -943,37 +962,69 @@ Definition gnu_pre_num : list wr :=
   ++ wr_if (0 <? length lk) GNUTAR_linkname_offset (firstn GNUTAR_linkname_size lk)
   ++ wr_if (0 <? length un) GNUTAR_uname_offset (firstn GNUTAR_uname_size un)
   ++ wr_if (0 <? length gn) GNUTAR_gname_offset (firstn GNUTAR_gname_size gn).
+Definition g_mode : wr := (GNUTAR_mode_offset, snd (gnutar_format_octal (Z.land (e_mode e) 4095) GNUTAR_mode_size)).
+Definition g_uid : wr := (GNUTAR_uid_offset, snd (gnutar_format_number (e_uid e) GNUTAR_uid_size GNUTAR_uid_max_size)).
+Definition g_gid : wr := (GNUTAR_gid_offset, snd (gnutar_format_number (e_gid e) GNUTAR_gid_size GNUTAR_gid_max_size)).
+Definition g_size : wr := (GNUTAR_size_offset, snd (gnutar_format_number (size_of e) GNUTAR_size_size GNUTAR_size_max_size)).
+Definition g_mtime : wr := (GNUTAR_mtime_offset, snd (gnutar_format_octal (e_mtime e) GNUTAR_mtime_size)).
+Definition g_tail : list wr :=
+  wr_if (is_dev e) GNUTAR_rdevmajor_offset (snd (gnutar_format_octal (dev_major (e_rdev e)) GNUTAR_rdevmajor_size))
+  ++ wr_if (is_dev e) GNUTAR_rdevminor_offset (snd (gnutar_format_octal (dev_minor (e_rdev e)) GNUTAR_rdevminor_size))
+  ++ [(GNUTAR_typeflag_offset, [t])].
+
+Lemma gnutar_fields_shape :
+  snd (gnutar_fields name lk un gn e t) = gnu_pre_num ++ [g_mode; g_uid; g_gid; g_size; g_mtime] ++ g_tail.
+Proof.
+  unfold gnutar_fields, gnu_pre_num, g_tail, g_mode, g_uid, g_gid, g_size, g_mtime. cbv zeta. cbn [snd].
+  repeat rewrite <- app_assoc. reflexivity.
+Qed.
+
+Ltac unfold_g := unfold gnu_pre_num, g_tail, g_mode, g_uid, g_gid, g_size, g_mtime in *.
+
+(* a field written by gnutar's format_number into a window of w bytes: the bytes, then what is left of the template *)
+Lemma gnutar_window : forall o v s mx ws1 ws2 k,
+  snd (gnutar_fields name lk un gn e t) = ws1 ++ (o, snd (gnutar_format_number v s mx)) :: ws2 ->
+  Forall (away o (length (snd (gnutar_format_number v s mx)))) ws2 ->
+  Forall (away (o + length (snd (gnutar_format_number v s mx))) k) (snd (gnutar_fields name lk un gn e t)) ->
+  (o + length (snd (gnutar_format_number v s mx)) + k <= GNUTAR_checksum_offset \/ GNUTAR_checksum_offset + 7 <= o) ->
+  slice o (length (snd (gnutar_format_number v s mx)) + k) h
+  = snd (gnutar_format_number v s mx) ++ slice (o + length (snd (gnutar_format_number v s mx))) k gnutar_template.
+Proof.
+  intros o v s mx ws1 ws2 k Heq Ha1 Ha2 Ho. subst h. unfold gnutar_header. cbn [snd].
+  apply (hdr_field_window _ _ _ GNUTAR_checksum_offset _ _ _ ws1 ws2); try assumption.
+  - reflexivity.
+  - apply gnutar_fields_inb.
+  - apply ck_ok_gnu.
+Qed.
 
 (* uid and gid: exact on [0, 2^62) whatever the status *)
 Theorem gnutar_uid_exact : (0 <= e_uid e < 4611686018427387904)%Z ->
   tar_atol (slice R_tar_uid_offset R_tar_uid_size h) = e_uid e.
 Proof.
-  intros Hv. subst h. unfold gnutar_header. cbn [snd].
-  set (bs := snd (gnutar_format_number (e_uid e) GNUTAR_uid_size GNUTAR_uid_max_size)).
-  pose proof (gnutar_fn_length (e_uid e) GNUTAR_uid_size GNUTAR_uid_max_size) as Hlen. fold bs in Hlen.
-  assert (Hw : forall k, length bs + k = 8 ->
-     slice GNUTAR_uid_offset (length bs + k)
-       (tar_checksum_gnu (apply_writes (snd (gnutar_fields name lk un gn e t)) gnutar_template))
-     = bs ++ slice (GNUTAR_uid_offset + length bs) k gnutar_template).
-  { intros k Hk.
-    apply (hdr_field_window _ _ _ GNUTAR_checksum_offset _ _ _
-             (gnu_pre_num ++ [(GNUTAR_mode_offset, snd (gnutar_format_octal (Z.land (e_mode e) 4095) GNUTAR_mode_size))])).
-    - reflexivity.
-    - apply gnutar_fields_inb.
-    - apply ck_ok_gnu.
-    - unfold gnutar_fields, gnu_pre_num; cbv zeta; cbn [snd]. repeat rewrite <- app_assoc. cbn [app]. reflexivity.
-    - split_forall; try leafg.
-    - unfold gnutar_fields; cbv zeta; cbn [snd]. fold bs. split_forall; try leafg.
+  intros Hv.
+  pose proof (gnutar_fn_length (e_uid e) GNUTAR_uid_size GNUTAR_uid_max_size) as Hlen.
+  assert (Hw : forall k, length (snd (gnutar_format_number (e_uid e) GNUTAR_uid_size GNUTAR_uid_max_size)) + k = 8 ->
+            slice GNUTAR_uid_offset (length (snd (gnutar_format_number (e_uid e) GNUTAR_uid_size GNUTAR_uid_max_size)) + k) h
+            = snd (gnutar_format_number (e_uid e) GNUTAR_uid_size GNUTAR_uid_max_size)
+              ++ slice (GNUTAR_uid_offset + length (snd (gnutar_format_number (e_uid e) GNUTAR_uid_size GNUTAR_uid_max_size))) k gnutar_template).
+  { intros k Hk. apply (gnutar_window GNUTAR_uid_offset (e_uid e) GNUTAR_uid_size GNUTAR_uid_max_size (gnu_pre_num ++ [g_mode]) ([g_gid; g_size; g_mtime] ++ g_tail) k).
+    - rewrite gnutar_fields_shape. rewrite <- app_assoc. reflexivity.
+    - unfold_g. split_forall; try leafg.
+    - rewrite gnutar_fields_shape. unfold_g. split_forall; try leafg.
     - leafg. }
-  destruct (e_uid e <? zpow 8 GNUTAR_uid_size)%Z eqn:E.
-  - change R_tar_uid_offset with GNUTAR_uid_offset. change R_tar_uid_size with (7 + 1).
-    change GNUTAR_uid_size with 7 in Hlen. rewrite <- Hlen. rewrite Hw by lia. rewrite Hlen.
-    change (slice (GNUTAR_uid_offset + 7) 1 gnutar_template) with [0%Z].
+  destruct (e_uid e <? zpow 8 GNUTAR_uid_size)%Z eqn:E; try rewrite E in Hlen.
+  - change R_tar_uid_offset with GNUTAR_uid_offset.
+    replace R_tar_uid_size with (length (snd (gnutar_format_number (e_uid e) GNUTAR_uid_size GNUTAR_uid_max_size)) + 1)
+      by (rewrite Hlen; reflexivity).
+    rewrite Hw by (rewrite Hlen; reflexivity). rewrite Hlen.
+    change (slice (GNUTAR_uid_offset + GNUTAR_uid_size) 1 gnutar_template) with [0%Z].
     apply (gnutar_number_exact_8 (e_uid e) GNUTAR_uid_size [0%Z]); [unfold GNUTAR_uid_size; lia | assumption |].
     rewrite E. apply stops_nul.
-  - change R_tar_uid_offset with GNUTAR_uid_offset. change R_tar_uid_size with (8 + 0).
-    change GNUTAR_uid_max_size with 8 in Hlen. rewrite <- Hlen. rewrite Hw by lia. rewrite Hlen.
-    change (slice (GNUTAR_uid_offset + 8) 0 gnutar_template) with (@nil Z).
+  - change R_tar_uid_offset with GNUTAR_uid_offset.
+    replace R_tar_uid_size with (length (snd (gnutar_format_number (e_uid e) GNUTAR_uid_size GNUTAR_uid_max_size)) + 0)
+      by (rewrite Hlen; reflexivity).
+    rewrite Hw by (rewrite Hlen; reflexivity). rewrite Hlen.
+    change (slice (GNUTAR_uid_offset + GNUTAR_uid_max_size) 0 gnutar_template) with (@nil Z).
     apply (gnutar_number_exact_8 (e_uid e) GNUTAR_uid_size []); [unfold GNUTAR_uid_size; lia | assumption |].
     rewrite E. reflexivity.
 Qed.
@@ -981,33 +1032,30 @@ Qed.
 Theorem gnutar_gid_exact : (0 <= e_gid e < 4611686018427387904)%Z ->
   tar_atol (slice R_tar_gid_offset R_tar_gid_size h) = e_gid e.
 Proof.
-  intros Hv. subst h. unfold gnutar_header. cbn [snd].
-  set (bs := snd (gnutar_format_number (e_gid e) GNUTAR_gid_size GNUTAR_gid_max_size)).
-  pose proof (gnutar_fn_length (e_gid e) GNUTAR_gid_size GNUTAR_gid_max_size) as Hlen. fold bs in Hlen.
-  assert (Hw : forall k, length bs + k = 8 ->
-     slice GNUTAR_gid_offset (length bs + k)
-       (tar_checksum_gnu (apply_writes (snd (gnutar_fields name lk un gn e t)) gnutar_template))
-     = bs ++ slice (GNUTAR_gid_offset + length bs) k gnutar_template).
-  { intros k Hk.
-    apply (hdr_field_window _ _ _ GNUTAR_checksum_offset _ _ _
-             (gnu_pre_num ++ [(GNUTAR_mode_offset, snd (gnutar_format_octal (Z.land (e_mode e) 4095) GNUTAR_mode_size));
-                              (GNUTAR_uid_offset, snd (gnutar_format_number (e_uid e) GNUTAR_uid_size GNUTAR_uid_max_size))])).
-    - reflexivity.
-    - apply gnutar_fields_inb.
-    - apply ck_ok_gnu.
-    - unfold gnutar_fields, gnu_pre_num; cbv zeta; cbn [snd]. repeat rewrite <- app_assoc. cbn [app]. reflexivity.
-    - split_forall; try leafg.
-    - unfold gnutar_fields; cbv zeta; cbn [snd]. fold bs. split_forall; try leafg.
+  intros Hv.
+  pose proof (gnutar_fn_length (e_gid e) GNUTAR_gid_size GNUTAR_gid_max_size) as Hlen.
+  assert (Hw : forall k, length (snd (gnutar_format_number (e_gid e) GNUTAR_gid_size GNUTAR_gid_max_size)) + k = 8 ->
+            slice GNUTAR_gid_offset (length (snd (gnutar_format_number (e_gid e) GNUTAR_gid_size GNUTAR_gid_max_size)) + k) h
+            = snd (gnutar_format_number (e_gid e) GNUTAR_gid_size GNUTAR_gid_max_size)
+              ++ slice (GNUTAR_gid_offset + length (snd (gnutar_format_number (e_gid e) GNUTAR_gid_size GNUTAR_gid_max_size))) k gnutar_template).
+  { intros k Hk. apply (gnutar_window GNUTAR_gid_offset (e_gid e) GNUTAR_gid_size GNUTAR_gid_max_size (gnu_pre_num ++ [g_mode; g_uid]) ([g_size; g_mtime] ++ g_tail) k).
+    - rewrite gnutar_fields_shape. rewrite <- app_assoc. reflexivity.
+    - unfold_g. split_forall; try leafg.
+    - rewrite gnutar_fields_shape. unfold_g. split_forall; try leafg.
     - leafg. }
-  destruct (e_gid e <? zpow 8 GNUTAR_gid_size)%Z eqn:E.
-  - change R_tar_gid_offset with GNUTAR_gid_offset. change R_tar_gid_size with (7 + 1).
-    change GNUTAR_gid_size with 7 in Hlen. rewrite <- Hlen. rewrite Hw by lia. rewrite Hlen.
-    change (slice (GNUTAR_gid_offset + 7) 1 gnutar_template) with [0%Z].
+  destruct (e_gid e <? zpow 8 GNUTAR_gid_size)%Z eqn:E; try rewrite E in Hlen.
+  - change R_tar_gid_offset with GNUTAR_gid_offset.
+    replace R_tar_gid_size with (length (snd (gnutar_format_number (e_gid e) GNUTAR_gid_size GNUTAR_gid_max_size)) + 1)
+      by (rewrite Hlen; reflexivity).
+    rewrite Hw by (rewrite Hlen; reflexivity). rewrite Hlen.
+    change (slice (GNUTAR_gid_offset + GNUTAR_gid_size) 1 gnutar_template) with [0%Z].
     apply (gnutar_number_exact_8 (e_gid e) GNUTAR_gid_size [0%Z]); [unfold GNUTAR_gid_size; lia | assumption |].
     rewrite E. apply stops_nul.
-  - change R_tar_gid_offset with GNUTAR_gid_offset. change R_tar_gid_size with (8 + 0).
-    change GNUTAR_gid_max_size with 8 in Hlen. rewrite <- Hlen. rewrite Hw by lia. rewrite Hlen.
-    change (slice (GNUTAR_gid_offset + 8) 0 gnutar_template) with (@nil Z).
+  - change R_tar_gid_offset with GNUTAR_gid_offset.
+    replace R_tar_gid_size with (length (snd (gnutar_format_number (e_gid e) GNUTAR_gid_size GNUTAR_gid_max_size)) + 0)
+      by (rewrite Hlen; reflexivity).
+    rewrite Hw by (rewrite Hlen; reflexivity). rewrite Hlen.
+    change (slice (GNUTAR_gid_offset + GNUTAR_gid_max_size) 0 gnutar_template) with (@nil Z).
     apply (gnutar_number_exact_8 (e_gid e) GNUTAR_gid_size []); [unfold GNUTAR_gid_size; lia | assumption |].
     rewrite E. reflexivity.
 Qed.
@@ -1015,34 +1063,30 @@ Qed.
 Theorem gnutar_size_exact : (0 <= size_of e < two63)%Z ->
   tar_atol (slice R_tar_size_offset R_tar_size_size h) = size_of e.
 Proof.
-  intros Hv. subst h. unfold gnutar_header. cbn [snd].
-  set (bs := snd (gnutar_format_number (size_of e) GNUTAR_size_size GNUTAR_size_max_size)).
-  pose proof (gnutar_fn_length (size_of e) GNUTAR_size_size GNUTAR_size_max_size) as Hlen. fold bs in Hlen.
-  assert (Hw : forall k, length bs + k = 12 ->
-     slice GNUTAR_size_offset (length bs + k)
-       (tar_checksum_gnu (apply_writes (snd (gnutar_fields name lk un gn e t)) gnutar_template))
-     = bs ++ slice (GNUTAR_size_offset + length bs) k gnutar_template).
-  { intros k Hk.
-    apply (hdr_field_window _ _ _ GNUTAR_checksum_offset _ _ _
-             (gnu_pre_num ++ [(GNUTAR_mode_offset, snd (gnutar_format_octal (Z.land (e_mode e) 4095) GNUTAR_mode_size));
-                              (GNUTAR_uid_offset, snd (gnutar_format_number (e_uid e) GNUTAR_uid_size GNUTAR_uid_max_size));
-                              (GNUTAR_gid_offset, snd (gnutar_format_number (e_gid e) GNUTAR_gid_size GNUTAR_gid_max_size))])).
-    - reflexivity.
-    - apply gnutar_fields_inb.
-    - apply ck_ok_gnu.
-    - unfold gnutar_fields, gnu_pre_num; cbv zeta; cbn [snd]. repeat rewrite <- app_assoc. cbn [app]. reflexivity.
-    - split_forall; try leafg.
-    - unfold gnutar_fields; cbv zeta; cbn [snd]. fold bs. split_forall; try leafg.
+  intros Hv.
+  pose proof (gnutar_fn_length (size_of e) GNUTAR_size_size GNUTAR_size_max_size) as Hlen.
+  assert (Hw : forall k, length (snd (gnutar_format_number (size_of e) GNUTAR_size_size GNUTAR_size_max_size)) + k = 12 ->
+            slice GNUTAR_size_offset (length (snd (gnutar_format_number (size_of e) GNUTAR_size_size GNUTAR_size_max_size)) + k) h
+            = snd (gnutar_format_number (size_of e) GNUTAR_size_size GNUTAR_size_max_size)
+              ++ slice (GNUTAR_size_offset + length (snd (gnutar_format_number (size_of e) GNUTAR_size_size GNUTAR_size_max_size))) k gnutar_template).
+  { intros k Hk. apply (gnutar_window GNUTAR_size_offset (size_of e) GNUTAR_size_size GNUTAR_size_max_size (gnu_pre_num ++ [g_mode; g_uid; g_gid]) ([g_mtime] ++ g_tail) k).
+    - rewrite gnutar_fields_shape. rewrite <- app_assoc. reflexivity.
+    - unfold_g. split_forall; try leafg.
+    - rewrite gnutar_fields_shape. unfold_g. split_forall; try leafg.
     - leafg. }
-  destruct (size_of e <? zpow 8 GNUTAR_size_size)%Z eqn:E.
-  - change R_tar_size_offset with GNUTAR_size_offset. change R_tar_size_size with (11 + 1).
-    change GNUTAR_size_size with 11 in Hlen. rewrite <- Hlen. rewrite Hw by lia. rewrite Hlen.
-    change (slice (GNUTAR_size_offset + 11) 1 gnutar_template) with [0%Z].
+  destruct (size_of e <? zpow 8 GNUTAR_size_size)%Z eqn:E; try rewrite E in Hlen.
+  - change R_tar_size_offset with GNUTAR_size_offset.
+    replace R_tar_size_size with (length (snd (gnutar_format_number (size_of e) GNUTAR_size_size GNUTAR_size_max_size)) + 1)
+      by (rewrite Hlen; reflexivity).
+    rewrite Hw by (rewrite Hlen; reflexivity). rewrite Hlen.
+    change (slice (GNUTAR_size_offset + GNUTAR_size_size) 1 gnutar_template) with [0%Z].
     apply (gnutar_number_exact_12 (size_of e) GNUTAR_size_size [0%Z]); [unfold GNUTAR_size_size; lia | assumption |].
     rewrite E. apply stops_nul.
-  - change R_tar_size_offset with GNUTAR_size_offset. change R_tar_size_size with (12 + 0).
-    change GNUTAR_size_max_size with 12 in Hlen. rewrite <- Hlen. rewrite Hw by lia. rewrite Hlen.
-    change (slice (GNUTAR_size_offset + 12) 0 gnutar_template) with (@nil Z).
+  - change R_tar_size_offset with GNUTAR_size_offset.
+    replace R_tar_size_size with (length (snd (gnutar_format_number (size_of e) GNUTAR_size_size GNUTAR_size_max_size)) + 0)
+      by (rewrite Hlen; reflexivity).
+    rewrite Hw by (rewrite Hlen; reflexivity). rewrite Hlen.
+    change (slice (GNUTAR_size_offset + GNUTAR_size_max_size) 0 gnutar_template) with (@nil Z).
     apply (gnutar_number_exact_12 (size_of e) GNUTAR_size_size []); [unfold GNUTAR_size_size; lia | assumption |].
     rewrite E. reflexivity.
 Qed.
